@@ -40,7 +40,7 @@ ShareM(m, src, dst) == LET m1 == DropPtr(m, dst) IN [m1 EXCEPT !.s.obj[dst].t = 
 (* cstl_array_alloc(a, nm, sz); ext/extnm: what cstl_array_set writes afterwards *)
 AllocM(m0, a, nm, sz, ext, extnm) ==
     LET m == ResetM(m0, a) IN
-    IF ~Small(nm) THEN m                                   \* size not representable: stays empty
+    IF ~Small(nm) \/ sz < 0 THEN m                         \* size not representable (sz = -e: elements of 2^e bytes): stays empty
     ELSE IF ~NextOK(m) THEN Ev(PopOK(m), <<"allocfail">>)
     ELSE LET m1 == Ev(PopOK(m), <<"allocd">>) IN
          IF ~NextOK(m1) THEN Ev(Ev(PopOK(m1), <<"allocfail">>), <<"freed", NEWB>>)
@@ -104,6 +104,11 @@ OKs(wf) == IF wf THEN {<<TRUE, TRUE>>, <<FALSE, TRUE>>, <<TRUE, FALSE>>} ELSE {<
 OpSetF(mx, wf) ==
     {[op |-> "alloc", a |-> a, nm |-> N(n), sz |-> 4, ok |-> k] : a \in OBJ, n \in {0, 2, mx}, k \in OKs(wf)}
     \cup {[op |-> "alloc", a |-> a, nm |-> h, sz |-> z, ok |-> <<TRUE, TRUE>>] : a \in OBJ, h \in Huge, z \in {1, 4}}
+    \* a few elements of 2^60 / 2^63 bytes: the byte count wraps although the element count is small
+    \cup {[op |-> "alloc", a |-> a, nm |-> N(16), sz |-> -60, ok |-> <<TRUE, TRUE>>] : a \in OBJ}
+    \cup {[op |-> "alloc", a |-> a, nm |-> N(2), sz |-> -63, ok |-> <<TRUE, TRUE>>] : a \in OBJ}
+    \* 16-byte elements (a multiple of the widest fundamental alignment)
+    \cup {[op |-> "alloc", a |-> a, nm |-> N(n), sz |-> 16, ok |-> <<TRUE, TRUE>>] : a \in OBJ, n \in {2, mx}}
     \cup {[op |-> "set", a |-> a, e |-> e, enm |-> mx, sz |-> 4, ok |-> k] : a \in OBJ, e \in 1..2, k \in OKs(wf)}
     \cup {[op |-> "slice", a |-> a, beg |-> b, end |-> e, s |-> s] : a \in OBJ, s \in OBJ, b \in Bounds(mx), e \in Bounds(mx)}
     \cup {[op |-> "unslice", s |-> s, a |-> a] : s \in OBJ, a \in OBJ}
@@ -148,7 +153,7 @@ Contract(o, pre, post, nlive, tt, out, ev, ret) ==
        /\ nlive = 2 * Len(post.desc)                       \* nothing leaked, nothing freed early
        /\ CASE o.op = "alloc" ->
                  /\ sameBut({o.a})
-                 /\ IF Small(o.nm) /\ o.ok = <<TRUE, TRUE>>
+                 /\ IF Small(o.nm) /\ o.sz > 0 /\ o.ok = <<TRUE, TRUE>>        \* o.sz < 0: elements of 2^-sz bytes, the byte count wraps
                     THEN tt[o.a] = NEWB /\ post.obj[o.a].off = 0 /\ post.obj[o.a].len = o.nm.n
                          /\ newd(o.a) = [nm |-> o.nm.n, sz |-> o.sz, ext |-> 0]
                     ELSE tt[o.a] = 0 /\ post.obj[o.a].len = 0          \* a failed allocation leaves the object empty
